@@ -784,6 +784,19 @@ def call_builtin(it, fn, args, kwargs, node, fr):
             # a feature test on a table: answered from the installed pandas (the library the checks are run against, as in E9)
             import pandas as _pd
             return K(hasattr(_pd.DataFrame, pyval(args[1])) or pyval(args[1]) in args[0].cols)
+        if is_pyconst(args[0]) and not isinstance(args[0], Seq) and is_pyconst(args[1]) and isinstance(pyval(args[1]), str) \
+                and isinstance(pyval(args[0]), (str, int, float, bool, type(None), bytes)):
+            return K(hasattr(pyval(args[0]), pyval(args[1])))  # a literal text / number: what it has is what its type has
+        if isinstance(args[0], Obj) and is_pyconst(args[1]) and isinstance(pyval(args[1]), str):
+            # an instance of a class of the repository: it has the attribute iff it was set on the object or the class hierarchy defines it
+            nm_ = pyval(args[1])
+            if nm_ in args[0].attrs or it.prog.find_method(args[0].cls, nm_):
+                return K(True)
+            try:
+                if any(it.prog.class_attr_node(c_, nm_) is not None for c_ in it.prog.mro(args[0].cls)):
+                    return K(True)
+            except Exception:  # noqa
+                pass
         return Val(call("hasattr", to_term(args[0]), to_term(args[1])))
     if fn == "getattr" and len(args) >= 2 and is_pyconst(args[1]):
         from .lib import getattr_
@@ -841,6 +854,16 @@ def isinstance_(it, v, cls, node):
         return K(any_(lambda n: n == "builtins.dict"))
     if isinstance(v, Arr):
         return K(any_(lambda n: n == "numpy.ndarray"))
+    kind_ = getattr(v, "pykind", None)
+    if kind_ is not None:
+        # the obligation says what kind of Python value this symbolic argument is (an ndarray, a list, a str ...): type tests are decided for
+        # it wherever they are made (helpers included), for the classes of the table of mutually exclusive kinds
+        table = {"numpy.ndarray": "ndarray", "builtins.list": "list", "builtins.tuple": "tuple", "builtins.str": "str", "os.PathLike": "path",
+                 "pathlib.Path": "path", "pathlib.PurePath": "path", "pandas.DataFrame": "DataFrame", "pandas.Series": "Series", "pandas.Index": "Index",
+                 "builtins.dict": "dict", "builtins.range": "range", "builtins.bytes": "bytes", "builtins.set": "set",
+                 "pandas.core.frame.DataFrame": "DataFrame", "pandas.core.series.Series": "Series"}
+        if all(n in table for n in names):
+            return K(any(table[n] == kind_ for n in names))
     return Val(call("isinstance", to_term(v), const("|".join(names))))
 
 
@@ -1426,11 +1449,30 @@ def val_method(it, v, name, args, kwargs, node, fr):
             if name == "join" and len(args) == 1 and isinstance(args[0], Seq) and not all(is_pyconst(x) for x in args[0].items):
                 # sep.join(<enumerated items>): the items' texts with the separator between them
                 return Val(call("str.join", const(pv), T("vec", *[to_term(x) for x in args[0].items])))
+            if name == "format" and kwargs:
+                # '{name} #{number}'.format(name=a, number=b): the same text as the positional template '{0} #{1}'.format(a, b)
+                import string as _string
+                names_ = list(kwargs.keys())
+                try:
+                    parts_ = []
+                    for lit, field, spec, conv in _string.Formatter().parse(pv):
+                        parts_.append(lit.replace("{", "{{").replace("}", "}}"))
+                        if field is not None:
+                            head_ = field.split(".")[0].split("[")[0]
+                            if head_ in names_:
+                                field = str(len(args) + names_.index(head_)) + field[len(head_):]
+                            parts_.append("{" + field + ("!" + conv if conv else "") + (":" + spec if spec else "") + "}")
+                    pv = "".join(parts_)
+                    v = K(pv)
+                    args = list(args) + [kwargs[n_] for n_ in names_]
+                    kwargs = {}
+                except (ValueError, KeyError):
+                    raise Unsupported("format string with keyword fields not recognised", node)
             try:
                 cargs = [pyval(a) for a in args]
                 r = getattr(pv, name)(*cargs)
                 return from_py(r)
-            except (NotConst, AttributeError, TypeError):
+            except (NotConst, AttributeError, TypeError, KeyError, IndexError):
                 return Unk(call("str." + name, to_term(v), *[to_term(a) for a in args]))
         import re as _re
         if isinstance(pv, _re.Pattern) and name in ("search", "match", "fullmatch", "findall", "sub", "split") and not kwargs:
